@@ -233,7 +233,8 @@ def cubic_spline(
         a = inputs_b[quadratic_mask]
         b = inputs_c[quadratic_mask]
         c = inputs_d[quadratic_mask] - inputs[quadratic_mask]
-        alpha = (-b + torch.sqrt(b.pow(2) - 4 * a * c)) / (2 * a)
+        # Numerically stable root: also valid for exactly linear segments (a == 0).
+        alpha = (2 * c) / (-b - torch.sqrt(b.pow(2) - 4 * a * c))
         outputs[quadratic_mask] = alpha + input_left_cumwidths[quadratic_mask]
 
         shifted_outputs = outputs - input_left_cumwidths
